@@ -333,8 +333,11 @@ def gen_trace_scale(r, shape=None, min_n=0, wave=None):
         return trace
     # many_groups: one key, items with hundreds of distinct values (hundreds of groups / runs / distinct keys)
     key = [r.choice([0, 2, 260])]
-    n = r.choice([150, 300, 600])
+    n = r.choice([300, 420, 600])          # always more than 256 distinct values
     items = [ev(i if r.random() < 0.8 else r.randint(0, n)) for i in range(n)]
+    # a second round: groups revisited after hundreds of other groups were touched, values that are equal modulo 256 next
+    # to each other, every fifth group once more
+    items += [ev(v) for v in (3, 259, 3, 40, 296, 40, 259)] + [ev(i) for i in range(0, n, 5)]
     return [['c', key]] + [['n', key, x] for x in items] + [['d', key]]
 
 
